@@ -353,6 +353,8 @@ nextStateFile:
 					Matches:    matches,
 					Uncertain:  mgr.allStreams,
 					Conditions: q.Conditions,
+
+					ReferenceTime: q.ReferenceTime,
 				},
 				definition:   t.Definition,
 				features:     q.Conditions.Features(),
@@ -1025,7 +1027,8 @@ func (mgr *Manager) AddTag(name, color, queryString string) error {
 	}
 	nt := &tag{
 		TagDetails: query.TagDetails{
-			Conditions: q.Conditions,
+			Conditions:    q.Conditions,
+			ReferenceTime: q.ReferenceTime,
 		},
 		definition:   queryString,
 		features:     features,
@@ -1204,7 +1207,8 @@ func (mgr *Manager) UpdateTag(name string, operation UpdateTagOperation) error {
 		}
 		newTag = &tag{
 			TagDetails: query.TagDetails{
-				Conditions: q.Conditions,
+				Conditions:    q.Conditions,
+				ReferenceTime: q.ReferenceTime,
 			},
 			definition: *info.query,
 			features:   features,
